@@ -183,7 +183,7 @@ package main
 //@   atcall (*RuntimeState).postAuthSSHCertHandler requires (s2 *RuntimeState, w2 http.ResponseWriter, r2 *http.Request, targetUser2 string, duration2 time.Duration) :: requestedOrAny(r2, duration2)   #C03.ssh-not-longer-than-requested @C03
 //@   atcall (*RuntimeState).postAuthX509CertHandler requires (s2 *RuntimeState, w2 http.ResponseWriter, r2 *http.Request, targetUser2 string, keySigner2 crypto.Signer, duration2 time.Duration, k8s bool) :: requestedOrAny(r2, duration2)   #C03.x509-not-longer-than-requested @C03
 //@ func (*RuntimeState).postAuthSSHCertHandler
-//@   requires state.Signer != nil                                                                         #C09.sealed-ssh @C09
+//@   requires state.Signer != nil                                                                         #C09.sealed-ssh @C09,C01
 //@   requires ghostAuthed                                                                                 #C06.authed-ssh @C06,C01
 //@   requires sufficientLevel(state.Config.Base.AllowedAuthBackendsForCerts, ghostAuthLevel)               #C01.level-ssh @C01
 //@   requires targetUser == ghostAuthUser                                                                 #C02.self-ssh @C02
@@ -191,7 +191,7 @@ package main
 //@   requires nowNanos() + int64(duration) <= ghostAuthIssuedAt + int64(maxCertificateLifetime)            #C03.session-ssh @C03
 
 //@ func (*RuntimeState).postAuthX509CertHandler
-//@   requires keySigner != nil && keySigner == state.Signer                                               #C09.sealed-x509 @C09
+//@   requires keySigner != nil && keySigner == state.Signer                                               #C09.sealed-x509 @C09,C01
 //@   requires ghostAuthed                                                                                 #C06.authed-x509 @C06,C01
 //@   requires sufficientLevel(state.Config.Base.AllowedAuthBackendsForCerts, ghostAuthLevel)               #C01.level-x509 @C01
 //@   requires targetUser == ghostAuthUser                                                                 #C02.self-x509 @C02
@@ -288,13 +288,13 @@ package main
 //@   modifies pointees(dest)
 //@ func (*RuntimeState).getAuthInfoFromJWT
 //@   reveal verifiedByKeymaster
-//@   ensures err == nil ==> verifiedByKeymaster(state, serializedToken)                                    #C04.auth-verified @C04
+//@   ensures err == nil ==> verifiedByKeymaster(state, serializedToken)                                    #C04.auth-verified @C04,C01
 //@   ensures err == nil ==> claimsAuthJWT(serializedToken).Issuer == state.idpGetIssuer()                  #C04.auth-issuer @C04
 //@   ensures err == nil ==> len(claimsAuthJWT(serializedToken).Audience) >= 1 && claimsAuthJWT(serializedToken).Audience[0] == state.idpGetIssuer()  #C04.auth-audience @C04
-//@   ensures err == nil ==> claimsAuthJWT(serializedToken).TokenType == tokenType                          #C04.auth-kind @C04
-//@   ensures err == nil ==> claimsAuthJWT(serializedToken).NotBefore <= nowNanos() / 1000000000            #C04.auth-nbf @C04
-//@   ensures err == nil ==> rvalue.Username == claimsAuthJWT(serializedToken).Subject && rvalue.AuthType == claimsAuthJWT(serializedToken).AuthType  #C04.auth-claims @C04
-//@   ensures err == nil ==> timeNanos(rvalue.ExpiresAt) == claimsAuthJWT(serializedToken).Expiration * 1000000000 && timeNanos(rvalue.IssuedAt) == claimsAuthJWT(serializedToken).IssuedAt * 1000000000  #C04.auth-times @C04
+//@   ensures err == nil ==> claimsAuthJWT(serializedToken).TokenType == tokenType                          #C04.auth-kind @C04,C01
+//@   ensures err == nil ==> claimsAuthJWT(serializedToken).NotBefore <= nowNanos() / 1000000000            #C04.auth-nbf @C04,C01
+//@   ensures err == nil ==> rvalue.Username == claimsAuthJWT(serializedToken).Subject && rvalue.AuthType == claimsAuthJWT(serializedToken).AuthType  #C04.auth-claims @C04,C01
+//@   ensures err == nil ==> timeNanos(rvalue.ExpiresAt) == claimsAuthJWT(serializedToken).Expiration * 1000000000 && timeNanos(rvalue.IssuedAt) == claimsAuthJWT(serializedToken).IssuedAt * 1000000000  #C04.auth-times @C04,C01
 
 //@ func (*RuntimeState).getStorageDataFromStorageStringDataJWT
 //@   reveal verifiedByKeymaster
